@@ -253,7 +253,7 @@ def structural_match(interp, pattern, source, pos, node):
     ctx.assume(z3.And(p >= 0, p + n <= z3.Length(src), z3.SubString(src, p, n) == whole), definitional=True)
     for g in d.end_anchor:
         ctx.assume(z3.Implies(g, p + n == z3.Length(src)), definitional=True)
-    ctx.ghost.setdefault("rx.matches", []).append({"whole": whole, "pos": p, "n": n, "source": src})
+    ctx.ghost.setdefault("rx.matches", []).append({"whole": whole, "pos": p, "n": n, "source": src, "groups": dict(d.groups)})
 
     class _Match(Model):
         clsname = "re.Match"
